@@ -97,6 +97,16 @@ var pins = []pin{
 		}
 		runSpec(c, cs, s, vs, dir)
 	}},
+	{"reduce-group-of-whole-element", func(c *run.Ctx, cs Case, dir string) {
+		// -g {0}: with reduce's default extraction {@} the whole element is the NUL-joined list of the five captures, so the
+		// group key has more parts than there are group and data columns together. Such a key cannot be shown cell by cell;
+		// the command must still complete (exit 0) and print the same thing for every variant.
+		s := baseSpec("reduce", mkLines([5]string{"a", "x", "1"}, [5]string{"b", "y", "2"}, [5]string{"a", "x", "1"}))
+		s.Red = &Reduce{Groups: []RGroup{{Name: "k", Pos: 1}}, Accs: []RAcc{{Name: "n", Kind: "count", Pos: 3}}}
+		s.CmdArgs = []string{"-g", "k={0}", "-a", "n={sumi {.} 1}"}
+		s.N, s.CrashOnly = 20, true
+		runSpec(c, cs, s, []*Variant{oneFile("base-csv", "csv", 3), oneFile("base-snap", "snap", 3)}, dir)
+	}},
 	{"reduce-empty-group-key", func(c *run.Ctx, cs Case, dir string) {
 		s := baseSpec("reduce", mkLines([5]string{"a", "x", "3"}, [5]string{"", "y", "4"}, [5]string{"", "y", "4"}, [5]string{"", "y", "4"}, [5]string{"b", "y", "4"}, [5]string{"b", "y", "4"}))
 		s.Red = &Reduce{Groups: []RGroup{{Name: "k", Pos: 1}}, Accs: []RAcc{{Name: "n", Kind: "count", Pos: 3}}, Sort: "n"}
